@@ -14,7 +14,9 @@ for p in sys.argv[2:]:
     if not fs: print("NO ENTRY", p)
     entries += fs
 cg = k4.CallGraph(F)
-order, seen, stats = cg.reach(entries)
+scope = os.environ.get("SCOPE"); scope = scope.split(",") if scope else None
+order, seen, stats = cg.reach(entries, (), scope)
+print("boundary:", sorted(cg.boundary))
 print("reached", len(order), "functions; stats", dict(stats))
 if "--fns" in sys.argv:
     for f in order: print("  ", f.path)
